@@ -71,6 +71,9 @@ pub struct Hist {
     pub opts: Opts,
     pub st: HStats,
     pub init: Init,
+    /// result of the last call, formatted (for lock-step differentials)
+    pub last_raw: String,
+    pub record_raw: bool,
 }
 
 fn err_name(e: Error) -> &'static str {
@@ -119,6 +122,8 @@ impl Hist {
             opts,
             st: HStats::default(),
             init,
+            last_raw: String::new(),
+            record_raw: false,
         };
         h.full_compare();
         Ok(h)
@@ -197,6 +202,9 @@ impl Hist {
                 } else {
                     catch(|| a.get(None, req))
                 };
+                if self.record_raw {
+                    self.last_raw = format!("{r:?}");
+                }
                 match r {
                     Err(p) => self.panic(valid, p),
                     Ok(Ok((f, c))) => {
@@ -238,6 +246,9 @@ impl Hist {
                 };
                 let b = Block { frame, order };
                 let expect_ok = valid && self.model.block_free(b) && !self.model.block_offline(b);
+                if self.record_raw {
+                    self.last_raw = format!("{r:?}");
+                }
                 match r {
                     Err(p) => self.panic(valid, p),
                     Ok(Ok((f, c))) => {
@@ -272,6 +283,9 @@ impl Hist {
                 };
                 let b = Block { frame, order };
                 let can = valid && self.model.can_put(b);
+                if self.record_raw {
+                    self.last_raw = format!("{r:?}");
+                }
                 match r {
                     Err(p) => self.panic(valid, p),
                     Ok(Ok(())) => {
@@ -306,7 +320,11 @@ impl Hist {
             }
             Op::Drain => {
                 let a = self.sut.a();
-                match catch(|| a.drain()) {
+                let r = catch(|| a.drain());
+                if self.record_raw {
+                    self.last_raw = format!("{r:?}");
+                }
+                match r {
                     Err(p) => self.panic(true, p),
                     Ok(()) => {
                         self.st.ok += 1;
@@ -494,6 +512,9 @@ impl Hist {
         };
         let a = self.sut.a();
         let r = catch(|| a.change_tree(matcher, change));
+        if self.record_raw {
+            self.last_raw = format!("{r:?}");
+        }
         let trees = self.model.trees();
         match r {
             Err(p) => self.panic(true, p),
